@@ -126,3 +126,33 @@ def iterator_program(seed):
     else:
         args += ["--preempt", rnd.choice([1, 2])]
     return "igen%d" % seed, args
+
+
+def channel_program(seed):
+    """-> (name, senders, sends, receivers, recvs, prefill, extra args, spurious budget)"""
+    rnd = random.Random(5000 + seed)
+    while True:
+        s = rnd.choice([0, 1, 1, 2])
+        r = rnd.choice([0, 1, 1, 2])
+        if s + r == 0:
+            continue
+        ns = rnd.choice([1, 1, 2]) if s else 0
+        nr = rnd.choice([1, 2, 3, 4]) if r else 0
+        pre = rnd.choice([0, 1, 3, 4, 5])
+        nested = rnd.choice([0, 0, 1])
+        spur = rnd.choice([0, 0, 1, 2])
+        threads = s + r
+        size = s * ns + r * nr
+        if size > 6:
+            continue
+        preempt = rnd.choice([1, 2]) if threads > 1 else 0
+        if threads > 2:
+            preempt = min(preempt, 1) if size > 3 else preempt
+        extra = ["--preempt", preempt]
+        if nested:
+            extra += ["--nested", 1]
+            if rnd.random() < 0.5:
+                extra += ["--post-points"]
+            if preempt > 1:
+                extra[1] = 1
+        return "cgen%d" % seed, s, ns, r, nr, pre, extra, spur
